@@ -15,6 +15,14 @@ type MV struct{ X int }
 
 func (m MV) MarshalJSON() ([]byte, error) { return []byte(fmt.Sprintf(`{"mv":%d}`, m.X)), nil }
 
+// MW: a marshaler whose output is loosely formatted (white space in front, inside and behind,
+// as an Encoder-built or hand-indented MarshalJSON result has).
+type MW struct{ X int }
+
+func (m MW) MarshalJSON() ([]byte, error) {
+	return []byte(fmt.Sprintf("\n {\"w\" : [ %d , 2 ]} \n", m.X)), nil
+}
+
 type MP struct{ X int }
 
 func (m *MP) MarshalJSON() ([]byte, error) {
@@ -145,7 +153,7 @@ func EncLeaves() []reflect.Type {
 		TNumber, TRaw, TTime, TEmpty,
 		reflect.TypeOf(MV{}), reflect.TypeOf(MP{}), reflect.TypeOf(TV{}), reflect.TypeOf(TP{}),
 		reflect.TypeOf(MI(0)), reflect.TypeOf(TS("")), reflect.TypeOf(TU8(0)), reflect.TypeOf(MSl(nil)),
-		reflect.TypeOf(Plain{}), reflect.TypeOf(RecP{}),
+		reflect.TypeOf(Plain{}), reflect.TypeOf(RecP{}), reflect.TypeOf(MW{}),
 	}
 }
 
